@@ -65,7 +65,7 @@ Print Assumptions C08_model_dictionary_compression_lossless.
 (* ==== round 2: the three places where findings of this property lived, each as a model of the mechanism with a theorem over all
         histories / sizes and a refutation of the code as it was (fixes d50580e, 2f41a3c, dd32199) ==== *)
 From ZV.Safety Require DDictHashSet.
-From ZV.Codec Require C08Select C08DictId C08Attach C08Repeat.
+From ZV.Codec Require C08Select C08DictId C08Attach C08Repeat C08Window.
 
 (* ZSTD_d_refMultipleDDicts: for every hash function, every history of ZSTD_DCtx_refDDict calls (any dictIDs, raw-content DDicts with
    dictID 0 included), every active DDict and every frame dictID: never an out-of-table probe or an endless loop; the frame is decoded
@@ -185,3 +185,64 @@ Theorem C08_offcode_reuse_refuted_without_downgrade :
   = [(C08Repeat.Repeat, true); (C08Repeat.Repeat, false)].
 Proof. exact C08Repeat.no_downgrade_refuted. Qed.
 Print Assumptions C08_offcode_reuse_refuted_without_downgrade.
+
+(* ---- round 3: validity of an attached dictionary while input segments arrive at arbitrary addresses (coq/Codec/C08Window.v) ---- *)
+(* block mode (ZSTD_compressBlock, with the test of fix 00d59f3): for every history of segments (address, size, forced non-contiguity),
+   while the dictionary is attached the prefix starts where this session's output began and holds every byte produced so far *)
+Theorem C08_block_mode_attached_dictionary_aligned : forall b db e segs,
+  Forall C08Window.seg_ok segs -> C08Window.inv (fold_left (C08Window.block_step true) segs (C08Window.attach b db e)).
+Proof. exact C08Window.block_mode_attached_dictionary_aligned. Qed.
+Print Assumptions C08_block_mode_attached_dictionary_aligned.
+
+(* frame mode (ZSTD_compressContinue: ZSTD_checkDictValidity + ZSTD_window_enforceMaxDist per block), any window size, any cut into blocks *)
+Theorem C08_frame_mode_attached_dictionary_aligned : forall md b db e segs,
+  Forall C08Window.fseg_ok segs -> C08Window.inv (fold_left (C08Window.frame_step md) segs (C08Window.attach b db e)).
+Proof. exact C08Window.frame_mode_attached_dictionary_aligned. Qed.
+Print Assumptions C08_frame_mode_attached_dictionary_aligned.
+
+(* whenever the dictionary-aware block compressors run (attached, no extDict segment) the index translation is the decoder's distance *)
+Theorem C08_block_mode_dictionary_use_aligned : forall b db e segs,
+  Forall C08Window.seg_ok segs ->
+  let s := fold_left (C08Window.block_step true) segs (C08Window.attach b db e) in C08Window.uses_dict s = true -> C08Window.aligned s.
+Proof. exact C08Window.block_mode_dictionary_use_aligned. Qed.
+Print Assumptions C08_block_mode_dictionary_use_aligned.
+
+(* block mode before 00d59f3: three blocks (the third written over the second) leave the dictionary in use with the prefix 2000 bytes late *)
+Theorem C08_block_mode_refuted_before_fix :
+  let s := fold_left (C08Window.block_step false) C08Window.ex_hist (C08Window.attach 10 10 1000) in
+  C08Window.uses_dict s = true /\ C08Window.dictLimit (C08Window.w s) = 3000%Z /\ C08Window.lde s = 1000%Z /\ C08Window.total s = 4000%Z /\
+  (C08Window.nextSrc (C08Window.w s) - C08Window.base (C08Window.w s) = 5000)%Z.
+Proof. exact C08Window.block_mode_refuted_before_fix. Qed.
+Print Assumptions C08_block_mode_refuted_before_fix.
+
+(* ---- round 3, following fix d0ddbff: a dictionary LOADED into the decompression context is the current one until a call replaces it ---- *)
+(* every hash function, history of referenced DDicts, current dictionary (referenced or loaded) and frame dictID: decoded with a dictionary
+   carrying the ID the frame names, or it names none and the current one serves, or refused *)
+Theorem C08_multi_ddict_selection_with_loaded_dictionary : forall (h : N -> N) (l : list DDictHashSet.entry) (s : DDictHashSet.hset) (local : bool)
+    (active : DDictHashSet.entry) (fid : N),
+  DDictHashSet.add_all h DDictHashSet.next_fixed l DDictHashSet.create = DDictHashSet.HOk s ->
+  match C08Select.select_cur h s local active fid with
+  | C08Select.Decode e => (fid = 0 /\ e = active) \/ (fid <> 0 /\ fst e = fid)
+  | C08Select.Refuse => fid <> 0 /\ fst active <> fid
+  | C08Select.Broken => False
+  end.
+Proof. exact C08Select.select_cur_names_frame_dictionary. Qed.
+Print Assumptions C08_multi_ddict_selection_with_loaded_dictionary.
+
+(* the loaded dictionary is never replaced by a frame, whatever the table of referenced DDicts holds *)
+Theorem C08_loaded_dictionary_never_replaced : forall (h : N -> N) (s : DDictHashSet.hset) (active e : DDictHashSet.entry) (fid : N),
+  C08Select.select_cur h s true active fid = C08Select.Decode e -> e = active.
+Proof. exact C08Select.loaded_dictionary_never_replaced. Qed.
+Print Assumptions C08_loaded_dictionary_never_replaced.
+
+(* "the whole dictionary is referencable while its last byte is within the window, then dropped": after the per-block calls of
+   ZSTD_compress_frameChunk (ZSTD_checkDictValidity, ZSTD_window_enforceMaxDist) any match index the finders may return for a position of
+   the block (>= ZSTD_getLowestMatchIndex) obeys the format's window rule as the reference decoder states it (Block.offset_ok) *)
+Theorem C08_frame_mode_match_obeys_window_rule : forall s ip bs md f0 curr m,
+  (0 <= md)%Z -> (C08Window.lde s = f0 \/ C08Window.lde s = 0%Z) -> (f0 <= ip - C08Window.base (C08Window.w s))%Z ->
+  let s' := C08Window.enforce_max_dist (C08Window.check_dict_validity s (ip + bs) md) ip md in
+  (ip - C08Window.base (C08Window.w s) <= curr < ip + bs - C08Window.base (C08Window.w s))%Z ->
+  (C08Window.lowest_match_index s' curr md <= m < curr)%Z ->
+  C08Window.format_window_rule md (curr - f0) (curr - m).
+Proof. exact C08Window.frame_mode_match_obeys_window_rule. Qed.
+Print Assumptions C08_frame_mode_match_obeys_window_rule.
